@@ -34,10 +34,36 @@ class Prop(PropBase):
                     ans.append(rng.choice(pool))
                 scn_all.append(scen.mixed_scenario(rng, self.L, t, f'c06_{t}_{r}', cfg, answers=ans, npk=rng.choice([4, 6, 9]) if t != 'RSM1_JUMBO' else 2,
                                                    malformed_p=0.1, step=rng.choice([20, 200, 2000]), big_steps=True))
-        return [('hist', '\n'.join(scn_all) + '\n')]
+        # stop() / restart while the caller's pool is dry: the decoding thread is retrying the get callback when the exit request
+        # arrives; the null answers must still never be dereferenced and the clouds of both sessions must pass the rules
+        ns = []
+        for k in range(3 if tier == 'quick' else 12):
+            t = rng.choice(['RS16', 'RS32', 'RSHELIOS', 'RSP128', 'RSM1'])
+            l = self.L[t]
+            cfg = pktgen.Cfg(wait=0, dense=rng.randrange(2), pktcb=0, lclock=1, mode=3, nblk=3)
+            pk = [scen.MechStream(rng, l).msop() for _ in range(6)] if l.mech else [scen.mems_msop(rng, l, q) for q in (1, 2, 3, 1, 2, 3)]
+            ans = [1] + ['N'] * rng.choice([150, 300]) + [2, 1, 'N', 'N', 2, 1, 2, 1, 2, 1, 2, 1, 2, 1, 2, 1, 2, 1, 2]
+            lines = [f'S c06_nullstop_{t}_{k}', cfg.line(0, l), 'A 0 ' + ' '.join(str(a) for a in ans), 'WD 30', 'LC 0 1', 'LI 0', 'LS 0']
+            lines += [f'LP 0 {p.hex()}' for p in pk[:3]] + [f'SL {rng.choice([20, 60])}', 'LX 0', 'LS 0'] + [f'LP 0 {p.hex()}' for p in pk[3:]] + ['LW 0', 'LX 0', 'LD 0', 'E']
+            ns.append('\n'.join(lines))
+        return [('hist', '\n'.join(scn_all) + '\n'), ('nullstop', '\n'.join(ns) + '\n')]
+
+    projection_threads = {'kinds': {'crash', 'hang', 'nodrv'}}
+
+    def judge(self, bname, *a, **kw):
+        keep = self.projection
+        if bname == 'nullstop':
+            self.projection = self.projection_threads     # real threads: judged by the history rules below, not line by line against the model
+        try:
+            return PropBase.judge(self, bname, *a, **kw)
+        finally:
+            self.projection = keep
 
     def oracle(self, name, impl, model, scn):
         errs = []
+        hung = [l for l in impl if l.startswith('hang')]
+        if hung:
+            errs.append(('hang', f'a call did not return: {hung[0][5:]}'))
         dense = None
         for l in scn:
             if l.startswith('D '):
